@@ -8,6 +8,8 @@
 #include "sim/simos.h"
 #include "sim/simvfs.h"
 
+#include <sqlite3.h>
+
 #include "llbuild/Basic/FileSystem.h"
 #include "llbuild/BuildSystem/BuildFile.h"
 #include "llbuild/BuildSystem/BuildKey.h"
@@ -106,6 +108,11 @@ struct Run {
   bool bCancelIssued = false, bCancelReturnedInBuild = false, buildReturned = false, cancelDone = true;
   uint64_t cancelSeq = 0;
   int cancelledBuilds = 0, cancelsInFlight = 0;
+  // process death during a build (C04 at build-system level)
+  std::unique_ptr<simfs::FS> survivor;
+  bool suppress = false;       // the observations of a build whose process "died" half way are not judged
+  int crashes = 0, crashesBeforeCommit = 0, crashesWithPartialOutputs = 0;
+  int64_t readIteration();
   std::set<std::string> startedThisBuild, finishedOkThisBuild, failedThisBuild;
   std::map<std::string, std::vector<std::pair<std::string, int>>> discoveredThisBuild;
   std::vector<std::string> errors;
@@ -143,7 +150,9 @@ struct Run {
   }
   void viol(const std::string& clauseIn, const std::string& detail) {
     std::string clause = clauseIn;
+    if (suppress) return;
     // the same observation belongs to different properties depending on what the history exercised
+    if (property == "C04" && (clause == "C08.1" || clause == "C08.3" || clause == "C09.2") && crashes > 0) clause = "C04.5";   // no clean-build result after the crash
     if (property == "C11" && clause == "C09.2") clause = "C11.2";       // a change to a discovered path did not re-run the command
     if (property == "C10" && clause == "C08.1" && everFailed) clause = "C10.4";   // no convergence after repair
     if (property == "C05" && (clause == "C08.1" || clause == "C08.3" || clause == "C09.2") && cancelledBuilds > 0) clause = "C05.5";   // a later build is not clean
@@ -484,6 +493,20 @@ int Run::toolProgram(simos::ProcCtx& c) {
   return finish(true, 0);
 }
 
+int64_t Run::readIteration() {
+  int64_t it = -1;
+  sqlite3* h = nullptr;
+  if (sqlite3_open((std::string(kWork) + "/build.db").c_str(), &h) == SQLITE_OK) {
+    sqlite3_stmt* st = nullptr;
+    if (sqlite3_prepare_v2(h, "SELECT iteration FROM info", -1, &st, nullptr) == SQLITE_OK) {
+      if (sqlite3_step(st) == SQLITE_ROW) it = sqlite3_column_int64(st, 0);
+      sqlite3_finalize(st);
+    }
+  }
+  sqlite3_close(h);
+  return it;
+}
+
 void Run::load() {
   property = plan.gets("property");
   const Json* cfg = plan.find("config");
@@ -541,6 +564,24 @@ void Run::opBuild(const Json& op) {
   cancelDone = true;
   const Json* cancelSpec = property == "C05" ? op.find("cancel") : nullptr;
   bool cancelOn = cancelSpec != nullptr;
+  // the process dies before the n-th database system call of this build: the disk as it was then is what survives
+  const Json* killSpec = property == "C04" ? op.find("kill") : nullptr;
+  int64_t killAt = killSpec ? killSpec->getn("n") : -1, iterBefore = -1;
+  auto recsBefore = recs;
+  auto softBefore = softAfterFailure;
+  bool fileExisted = stateOf("build.db").exists;
+  if (killSpec) {
+    iterBefore = fileExisted ? readIteration() : -1;
+    simvfs::reset_counter();
+    simvfs::set_hook([this, killAt](const simvfs::Call& c) -> int {
+      if ((int64_t)c.index == killAt && !survivor) {
+        survivor = simfs::fs().clone();
+        suppress = true;
+        ev("process-dies-here (database call " + std::to_string(killAt) + ": " + c.op + ")");
+      }
+      return 0;
+    });
+  }
 
   // ---- prediction (before the build touches anything)
   std::vector<std::string> roots;
@@ -990,6 +1031,61 @@ void Run::opBuild(const Json& op) {
     if (reached.count(t) && !(bCancelIssued && !ran.count(t) && !interrupted.count(t))) recs[t].ok = false;
     else softAfterFailure.insert(t);
   }
+
+  // ---- C04: the process died at the chosen call; what the next process finds is the disk as it was then
+  if (killSpec) {
+    simvfs::set_hook(nullptr);
+    if (survivor) {
+      int64_t iterFinal = readIteration();
+      std::string actor = simfs::fs().actor;
+      simfs::setFS(std::move(survivor));
+      survivor.reset();
+      simfs::fs().actor = actor;
+      suppress = false;
+      crashes++;
+      res.counters["process_deaths"]++;
+      ev("next-process");
+      // the next process opens the file (hot-journal recovery happens here, as it would there)
+      int64_t iterNow = readIteration();
+      bool committed = iterFinal != iterBefore && iterNow == iterFinal;
+      // the schema is created in a transaction of its own (epoch 0) before the build's: three legitimate outcomes
+      bool schemaOnly = iterBefore < 0 && iterNow == 0;
+      if (iterNow != iterBefore && iterNow != iterFinal && !schemaOnly)
+        viol("C04.2", "the database holds epoch " + std::to_string(iterNow) + " which is neither the one before (" + std::to_string(iterBefore) + ") nor the one after (" +
+                          std::to_string(iterFinal) + ") the interrupted build");
+      {
+        sqlite3* h = nullptr;
+        if (sqlite3_open((std::string(kWork) + "/build.db").c_str(), &h) == SQLITE_OK) {
+          sqlite3_stmt* st = nullptr;
+          if (sqlite3_prepare_v2(h, "PRAGMA integrity_check", -1, &st, nullptr) == SQLITE_OK) {
+            if (sqlite3_step(st) == SQLITE_ROW) {
+              std::string r = (const char*)sqlite3_column_text(st, 0);
+              if (r != "ok") viol("C04.1", "integrity check of the surviving database: " + r);
+            }
+            sqlite3_finalize(st);
+          }
+        }
+        sqlite3_close(h);
+      }
+      if (!committed) {
+        crashesBeforeCommit++;
+        res.counters["process_deaths_before_commit"]++;
+        recs = recsBefore;
+        softAfterFailure = softBefore;
+        bool partial = false;
+        for (auto& e : toolStartSeq) {
+          const Cmd* c = desc.byName(e.first);
+          if (!c) continue;
+          for (auto& o : c->outputs)
+            if (!isVirtualNode(o) && !isDirNode(o) && recsBefore.count(c->name) && stateOf(o) != recsBefore[c->name].outs[o]) partial = true;
+        }
+        if (partial) res.counters["process_deaths_with_outputs_already_modified"]++;
+      }
+      // what the dead process had started: it will run again or not depending on what survived; contents must converge
+      for (auto& e : toolStartSeq) softAfterFailure.insert(e.first);
+    }
+    suppress = false;
+  }
 }
 
 void Run::execute() {
@@ -1275,6 +1371,7 @@ struct Gen {
 
   // ---- C12: a source tree consumed through a directory-tree / directory-structure node
   std::set<std::string> treeFiles, treeDirs;
+  std::map<std::string, std::vector<std::string>> pastContents;
   std::string pickName(bool dirName) {
     static const char* fn[] = {"a.txt", "b.txt", "c.c", "d.tmp", "skipme", "e.h", "f.tmp", "g", "skip.2", "h.txt"};
     static const char* dn[] = {"sub", "inc", "x", "deep", "skipdir", "y.tmp"};
@@ -1481,6 +1578,7 @@ struct Gen {
       else op.set("target", util::hex(""));
       if (property == "C05" && rng.chance(550))
         op.set("cancel", Json::obj().set("n", (int64_t)rng.below(6)).set("yields", (int64_t)rng.below(25)));
+      if (property == "C04" && rng.chance(450)) op.set("kill", Json::obj().set("n", (int64_t)(rng.chance(300) ? rng.below(400) : rng.below(90))));
       hist.push(op);
     };
     addBuild();
@@ -1566,6 +1664,10 @@ struct Gen {
             }
           }
           std::string content = freshContent("edit", inc);
+          // sometimes the edit takes the file back to what it held before (matters where only content counts)
+          auto& past = pastContents[p];
+          if (!past.empty() && rng.chance(200)) content = past[rng.below(past.size())];
+          if (sources.count(p)) past.push_back(sources[p]);
           sources[p] = content;
           hist.push(Json::obj().set("op", "edit").set("path", util::hex(p)).set("content", util::hex(content)));
         }
@@ -1585,7 +1687,7 @@ struct Gen {
         desc.normalise();
         hist.push(Json::obj().set("op", "desc").set("kind", kind).set("desc", desc.toJson()));
         addBuild();
-      } else if (property == "C05") {
+      } else if (property == "C05" || property == "C04") {
         addBuild();
       } else {
         // make a command fail for a while
@@ -1675,6 +1777,7 @@ public:
     else if (p == "C09") run.res.nontrivial = run.anyMixed || run.nullBuilds > 0;
     else if (p == "C10") run.res.nontrivial = run.failuresInjected > 0;
     else if (p == "C05") run.res.nontrivial = run.cancelledBuilds > 0 && run.buildNo >= 2;
+    else if (p == "C04") run.res.nontrivial = run.crashesBeforeCommit > 0 && run.buildNo >= 2;
     else if (p == "C11") run.res.nontrivial = run.discoveredSeen > 0;
     else if (p == "C12") run.res.nontrivial = run.treeEdits > 0 && run.treeReruns > 0;
     else if (p == "C14") run.res.nontrivial = run.staleChecks >= 2 && run.staleRemovals > 0;
